@@ -4,21 +4,44 @@ use crate::ctx::Tier;
 use bmv_core::subj::{ALL_BKINDS, BKind, Flavor};
 use bmv_core::util::Rng;
 
-/// cap on bytes per call (bs = 255 -> ~32 blocks)
+/// cap on bytes per ordinary call (bs = 255 -> ~32 blocks); the rare "long" classes below go
+/// beyond it on purpose
 pub const MAX_BYTES: usize = 8192;
+/// cap for the rare long calls (single calls of > 64 blocks, > 64 KiB, > 65536 blocks)
+pub const MAX_LONG_BYTES: usize = 1_200_000;
 
-pub fn max_blocks(bs: usize, tier: Tier) -> usize {
+pub fn max_blocks(bs: usize, w: usize, tier: Tier) -> usize {
     let cap = match tier {
-        Tier::Slice => 9,
+        Tier::Slice => return (MAX_BYTES / bs.max(1)).clamp(3, 9),
         _ => 40,
     };
-    (MAX_BYTES / bs.max(1)).clamp(3, cap)
+    // always allow three full batches + tail of the backend width, within 64 KiB
+    let by_width = (3 * w + 2).min(65536 / bs.max(1));
+    (MAX_BYTES / bs.max(1)).clamp(3, cap).max(by_width)
 }
 
-/// number of blocks, biased to batch boundaries of width `w`
+/// number of blocks, biased to batch boundaries of width `w`; rarely a *long* single call
+/// (> 64 blocks; > 64 KiB; > 65536 blocks) because batching / windowing code has thresholds
 pub fn nblocks(rng: &mut Rng, w: usize, bs: usize, tier: Tier) -> (usize, &'static str) {
     let w = w.max(1);
-    let cap = max_blocks(bs, tier);
+    let cap = max_blocks(bs, w, tier);
+    if tier != Tier::Slice {
+        let roll = rng.below(3000);
+        if roll < 60 {
+            // more than 64 blocks in one call
+            let n = *rng.pick(&[65usize, 66, 67, 129, 130, 200, 257, 300]);
+            return (n.min(MAX_LONG_BYTES / bs), "long>64blk");
+        }
+        if roll < 72 {
+            // more than 64 KiB (and more than 32 KiB) in one call, any block size
+            let bytes = *rng.pick(&[32_768usize + 1, 40_000, 65_536 + 1, 70_001, 131_072 + 5]);
+            return (bytes.div_ceil(bs).min(MAX_LONG_BYTES / bs), "long>64KiB");
+        }
+        if roll < 81 && bs <= 16 {
+            // more than 65536 blocks in one call
+            return ((65_536 + rng.below(12)).min(MAX_LONG_BYTES / bs), "long>65536blk");
+        }
+    }
     let cands: [(usize, &'static str); 12] = [
         (0, "0"),
         (1, "1"),
@@ -52,7 +75,7 @@ pub fn nbytes(rng: &mut Rng, b: usize, w: usize, tier: Tier) -> (usize, &'static
     ];
     let (r, c) = *rng.pick(&cands);
     let r = r % b;
-    ((nb * b + r).min(MAX_BYTES), c)
+    ((nb * b + r).min(MAX_LONG_BYTES), c)
 }
 
 #[derive(Clone, Debug)]
@@ -71,7 +94,8 @@ pub fn schedule(rng: &mut Rng, n: usize, w: usize) -> (Vec<usize>, &'static str)
     if n == 0 {
         return (vec![0], "empty");
     }
-    let class = rng.below(9);
+    // long inputs: only schedules with a handful of pieces (cost stays linear)
+    let class = if n > 400 { *rng.pick(&[1usize, 2, 4, 6, 7, 8]) } else { rng.below(9) };
     let mut v = Vec::new();
     let name;
     match class {
@@ -164,13 +188,29 @@ pub fn byte_schedule(rng: &mut Rng, len: usize, b: usize) -> (Vec<usize>, &'stat
     if len == 0 {
         return (vec![0, 0], "empty");
     }
-    let class = rng.below(8);
+    // long inputs: only schedules with a bounded number of pieces
+    let class = if len > 20_000 { *rng.pick(&[0usize, 0, 1, 5, 6, 7, 8]) } else { rng.below(9) };
     let mut v = Vec::new();
     let name;
     match class {
         0 => {
             v = vec![len];
             name = "one";
+        }
+        8 => {
+            // hundreds of tiny calls on one object (0..3 bytes each), then the rest
+            let mut left = len;
+            let mut calls = 0;
+            while left > 0 && calls < 700 {
+                let k = rng.below(4).min(left);
+                v.push(k);
+                left -= k;
+                calls += 1;
+            }
+            if left > 0 {
+                v.push(left);
+            }
+            name = "many-tiny";
         }
         1 => {
             // every byte alone (cap the count)
